@@ -191,8 +191,44 @@ def sampled_init_case(ctx, backend_name, n, specs):
     return True
 
 
+def float_angle_case(ctx, rng, backend_name):
+    """parameters that are plain floats close to - but not at - the special angles (multiples of pi/2, 0, 2 pi, 4 pi):
+    no internal tolerance may snap them; reference: the independent numpy state-vector runner"""
+    from tangelo.linq import Circuit, Gate, get_backend
+    n = rng.randint(1, 3)
+    gl, desc = [], []
+    for _ in range(rng.randint(2, 6)):
+        name = rng.choice(["RX", "RY", "RZ", "PHASE", "CRX", "CRY", "CRZ", "CPHASE", "H", "CNOT"] if n > 1 else ["RX", "RY", "RZ", "PHASE", "H"])
+        qs = rng.sample(range(n), 2 if name.startswith("C") else 1)
+        if name in ("H", "CNOT"):
+            gl.append(Gate(name, qs[0], control=qs[1] if name == "CNOT" else None)); desc.append([name, qs, None])
+            continue
+        theta = rng.choice([0, 1, 2, 3, 4, -1, -2, 8]) * math.pi / 2 + rng.choice([-1, 1]) * rng.choice([3e-7, 5e-6, 8e-5, 9e-5, 3e-4, 2e-3])
+        gl.append(Gate(name, qs[0], control=qs[1] if name.startswith("C") else None, parameter=theta)); desc.append([name, qs, theta])
+    c = Circuit(gl, n_qubits=n)
+    case = {"kind": "float_angles", "backend": backend_name, "n": n, "gates": desc}
+    ctx.case(case, nontrivial=True, sample=False)
+    ctx.count(f"{backend_name}:float-angles-near-special")
+    order = "lsq_first" if backend_name == "cirq" else "msq_first"
+    try:
+        freqs, sv = get_backend(backend_name).simulate(c, return_statevector=True)
+    except Exception as e:
+        ctx.violation(f"{backend_name}: simulate raises {vlib.err_name(e)} on a circuit with float parameters near special angles", case)
+        return False
+    ref, _ = vlib.np_run_state(c._gates, n)
+    got = _to_model_order(np.array(sv).astype(complex).ravel(), n, order)
+    if not np.allclose(got, ref, atol=1e-9):
+        ctx.violation(f"{backend_name}: state differs from the documented gate definitions by {np.abs(got - ref).max():.3g} for parameters close to "
+                      f"(not at) special angles: {[d for d in desc if d[2] is not None]}", case)
+        return False
+    return True
+
+
 def run(ctx):
     rng = ctx.rng
+    for i in range(ctx.n(60, 1500)):
+        if not float_angle_case(ctx, rng, "cirq" if i % 4 else "sympy"):
+            return
     n_cirq, n_sympy = ctx.n(260, 8000), ctx.n(40, 600)
     for i in range(n_cirq):
         n = rng.randint(1, ctx.n(5, 7))
